@@ -28,7 +28,17 @@ RULE = ("a case is an ORDERED PAIR of type descriptions (weight type, input "
         "in ascending, descending and interleaved order, against 7 partner "
         "types, in either operand role; plus Hypothesis-drawn sequences); "
         "every result goes through the same product-membership oracle; a "
-        "pair failing only on the shared factory is 'stale_factory_state'.  Construction route (direct "
+        "pair failing only on the shared factory is 'stale_factory_state'.  Part H/H2 (mode 'hist'): one or both "
+        "operand OBJECTS carry a history before they reach a fresh factory: created as another type of the same "
+        "kind family (po2 / fixed / binary+-1|01), observed 0..3 times through the public API (get_min_max_exp, "
+        "accumulator_impl.po2_to_qbits, convert_to_qkeras_quantizer, being served by make_multiplier in either "
+        "role, QuantizerFactory clone, deepcopy, update_inference_values, field reads), RE-SIZED to the target "
+        "type by one of three routes (direct re-assignment of the public fields, convert_qkeras_quantizer of the "
+        "target's qkeras quantizer, PowerOfTwo.update_quantizer(+-2^e, reset)), observed again; deterministic: "
+        "every (start, target) pair of a small family per kind x route with prefixes/suffixes/partners/roles "
+        "rotating, plus Hypothesis-drawn histories; the value sets are those of the types the objects report "
+        "after the history, a pair that passes with freshly built objects of the same types but fails with the "
+        "historied ones is 'stale_operand_state'.  Construction route (direct "
         "quantizer_impl object vs QuantizerFactory().make_quantizer(qkeras "
         "quantizer)) alternates deterministically.  Non-trivial = the two "
         "operands differ in kind or in signedness; distinct by hash of the "
@@ -44,15 +54,20 @@ ASSUMPTIONS = [
     "implemented_as table: class docstrings of multiplier_impl (Mux: binary(1,-1)/ternary * other; AndGate: binary(0,1) * any; Shifter: po2*qbits; Adder: po2*po2; XorGate) which agree with the make_multiplier docstring table in 19 of 25 cells; in the 6 cells where that (mis-aligned) docstring table differs both readings are accepted",
     "quantized_relu(1,1) is routed by the factory as binary(0,1): both the fixed and the binary01 table rows are accepted for it",
     "leaky quantized_relu is given the full signed fixed lattice of its qtools type (a superset of what the qkeras quantizer emits)",
+    "history cases: the operand type is the one the object's public fields (kind/mode, bits, int_bits, is_signed, max_val_po2) describe at the moment it is handed to make_multiplier; for the assign / convert routes that is the target description (convert: additionally checked by the operand_conversion clause), for update_quantizer it is read back from the fields; an update_quantizer call that leaves max_val_po2 <= 0 (other than -1) or below the smallest exponent describes no type and is counted (hist_update_malformed) but not judged",
+    "a re-sized object must still report the kind of its target type (mode / is_po2), else kind_after_resize",
 ]
 BUDGET_S = {"quick": 70, "thorough": 800}
 _IMPLS = ["FixedPointMultiplier", "Shifter", "Mux", "AndGate", "XorGate", "Adder",
           "FloatingPointMultiplier"]
+_HIST_LABELS = ["hist", "hyp_hist", "hist_resize:assign", "hist_resize:convert", "hist_resize:update",
+                "hist_kind:po2", "hist_kind:fixed", "hist_pre:exp", "hist_pre:acc", "hist_pre:clone",
+                "hist_pre:mul", "hist_widen", "hist_narrow", "hist_role:w", "hist_role:x", "hist_role:both"]
 REQUIRED_LABELS = {
     "quick": ["all", "ext", "hyp", "via:impl*impl", "via:factory*factory",
-              "float", "po2_cap_not_pow2", "seq", "seq_po2_caps", "hyp_seq"] + ["impl:" + c for c in _IMPLS],
+              "float", "po2_cap_not_pow2", "seq", "seq_po2_caps", "hyp_seq"] + _HIST_LABELS + ["impl:" + c for c in _IMPLS],
     "thorough": ["all", "ext", "hyp", "via:impl*impl", "via:factory*factory",
-                 "float", "po2_cap_not_pow2", "seq", "seq_po2_caps", "hyp_seq"] + ["impl:" + c for c in _IMPLS],
+                 "float", "po2_cap_not_pow2", "seq", "seq_po2_caps", "hyp_seq"] + _HIST_LABELS + ["impl:" + c for c in _IMPLS],
 }
 
 _T = {
@@ -115,9 +130,11 @@ def _scaled(vals):
   return [int(v * den) for v in vals], den.bit_length() - 1
 
 
-def oracle(case, stats=None, factory=None):
+def oracle(case, stats=None, factory=None, objs=None):
   """-> list of (sub_check, signature, detail).  `factory`: a shared
-  MultiplierFactory instance (sequence cases); default a fresh one."""
+  MultiplierFactory instance (sequence cases); default a fresh one.  `objs`:
+  (qw, qx) operand objects already built (history cases); default: built
+  fresh from the descriptions."""
   w, x, mode = case["w"], case["x"], case.get("mode", "ext")
   st = stats if stats is not None else {}
   lw, lx = R.desc_lat(w), R.desc_lat(x)
@@ -125,7 +142,7 @@ def oracle(case, stats=None, factory=None):
           "signs": "us"[R.desc_sign(w)] + "us"[R.desc_sign(x)]}
   from qkeras.qtools.quantized_operators import multiplier_factory  # pylint: disable=g-import-not-at-top
   try:
-    qw, qx = R.build(w), R.build(x)
+    qw, qx = objs if objs is not None else (R.build(w), R.build(x))
   except Exception as e:  # pylint: disable=broad-except
     if core.qkeras_frame(e.__traceback__) is None:
       raise
@@ -310,6 +327,105 @@ def run_seq(ctx, case, extra=()):
   return fails
 
 
+def _widens(start, target):
+  """does the re-sized type hold a value the start type could not hold?"""
+  ls, lt = R.desc_lat(start), R.desc_lat(target)
+  return any(ls.why_not(v) is not None for v in lt.extremes())
+
+
+def hist_oracle(case, st=None):
+  """Operand objects with a history (created as another type of the same
+  kind, observed through the public API, re-sized, observed again) go into a
+  fresh MultiplierFactory; the result is judged by the pair oracle against the
+  value sets of the types the objects NOW report.  A pair that fails with the
+  historied objects but passes with freshly built objects of the same types is
+  reported as stale_operand_state."""
+  st = st if st is not None else {}
+  labs = st.setdefault("labels", [])
+  objs, descs = [], []
+  base = {"w": R.desc_label(case["w"]), "x": R.desc_label(case["x"])}
+  for role in ("w", "x"):
+    d, h = case[role], case.get("h" + role)
+    try:
+      if h is None:
+        q, final = R.build(d), d
+      else:
+        q, final = R.apply_history(d, h)
+    except Exception as e:  # pylint: disable=broad-except
+      if core.qkeras_frame(e.__traceback__) is None:
+        raise
+      st["impl"] = "none"
+      return [("history_raises", dict(core.exc_signature(e), role=role, resize=(h or {}).get("resize"), **base),
+               repr(e)[:300])]
+    if h is not None:
+      labs.append("hist_resize:" + h["resize"])
+      labs.append("hist_kind:" + d["k"])
+      labs.extend("hist_pre:" + o for o in h.get("pre", ()))
+      labs.extend("hist_post:" + o for o in h.get("post", ()))
+      if final is None:
+        # update_quantizer left max_val_po2 <= 0 (not the documented -1): the
+        # fields describe no type whose value set could be stated
+        labs.append("hist_update_malformed")
+        st["impl"] = "none"
+        st["skipped"] = True
+        return []
+      labs.append("hist_widen" if _widens(h["start"], final) else "hist_narrow")
+      # the re-sized object must still report the kind of the target type
+      # (mode = row/column of the multiplier table, is_po2)
+      if R.obj_kind(q) != final["k"] and not (final["k"] == "fixed" and R.obj_kind(q) == "binary01"):
+        st["impl"] = "none"
+        return [("kind_after_resize",
+                 {"cls": type(q).__name__, "resize": h["resize"], "target": R.desc_label(final),
+                  "mode": int(q.mode), "is_po2": int(bool(getattr(q, "is_po2", 0)))},
+                 "object created as %s, re-sized by %s to %s, reports %r" % (
+                     R.desc_lat(h["start"]).describe(), h["resize"], R.desc_lat(final).describe(), R.fields(q)))]
+      try:
+        q = R.apply_ops(q, h.get("post", ()))
+      except Exception as e:  # pylint: disable=broad-except
+        if core.qkeras_frame(e.__traceback__) is None:
+          raise
+        st["impl"] = "none"
+        return [("history_raises", dict(core.exc_signature(e), role=role, resize=h["resize"], **base),
+                 repr(e)[:300])]
+    objs.append(q)
+    descs.append(final)
+  labs.append("hist_role:" + ("both" if case.get("hw") and case.get("hx") else "w" if case.get("hw") else "x"))
+  pc = {"w": descs[0], "x": descs[1]}
+  pc["mode"] = _auto_mode(pc["w"], pc["x"])
+  st["pc"] = pc
+  fails = oracle(pc, st, objs=tuple(objs))
+  if not fails:
+    return []
+  fresh_keys = set(core.fkey(sc, sig) for sc, sig, _ in oracle(pc, {}))
+  out = []
+  for sc, sig, detail in fails:
+    if core.fkey(sc, sig) in fresh_keys:
+      out.append((sc, sig, detail))            # the type pair fails on its own
+    else:
+      sig2 = dict(sig, was=sc, resize="+".join(sorted(set(
+          case[h]["resize"] for h in ("hw", "hx") if case.get(h)))))
+      out.append(("stale_operand_state", sig2,
+                  "passes with freshly built operand objects of the same reported types, fails with the "
+                  "re-sized objects (%s): %s" % (
+                      "; ".join("%s: start %s pre=%s %s post=%s" % (
+                          r, R.desc_lat(case["h" + r]["start"]).describe(), case["h" + r].get("pre"),
+                          case["h" + r]["resize"], case["h" + r].get("post"))
+                                for r in ("w", "x") if case.get("h" + r)), detail)))
+  return out
+
+
+def run_hist(ctx, case, extra=()):
+  st = {}
+  fails = hist_oracle(case, st)
+  pc = st.get("pc")
+  labs = list(extra) + ["hist"] + st["labels"]
+  if pc is not None:
+    labs += [l for l in labels_of(pc, st) if l not in ("all", "ext")]
+  ctx.tick(case, labels=labs, nontrivial=not st.get("skipped"), sample_label="hist")
+  ctx.info["value_pairs"] = ctx.info.get("value_pairs", 0) + st.get("nprod", 0)
+  return fails
+
+
 def run(ctx):
   from hypothesis import strategies as st_  # pylint: disable=g-import-not-at-top
   maxb = 5
@@ -333,6 +449,14 @@ def run(ctx):
   for sq in ctx.shard(seqs):
     case = {"seq": sq, "mode": "seq"}
     for f in run_seq(ctx, case):
+      ctx.fail(f[0], f[1], case, f[2])
+
+  # Part H: operand objects with a history (deterministic)
+  hcs = G.history_cases(ctx.tier)
+  if ctx.idx == 0:
+    ctx.info["history_cases"] = len(hcs)
+  for case in ctx.shard(hcs):
+    for f in run_hist(ctx, case):
       ctx.fail(f[0], f[1], case, f[2])
 
   # Part B: wide types, extremes
@@ -383,8 +507,16 @@ def run(ctx):
   n = (400 if ctx.quick else 20000) // ctx.n + 1
   core.hyp_run(ctx, seq_st(), lambda c: run_seq(ctx, c, extra=("hyp_seq",)), n, name="c16seq")
 
+  # Part H2: random histories
+  n = (1500 if ctx.quick else 40000) // ctx.n + 1
+  core.hyp_run(ctx, G.history_strategy(st_), lambda c: run_hist(ctx, c, extra=("hyp_hist",)), n, name="c16hist")
+
 
 def replay(ctx, case):
+  if case.get("mode") == "hist":
+    for f in run_hist(ctx, case, extra=("replay",)):
+      ctx.fail(f[0], f[1], case, f[2])
+    return
   if "seq" in case:
     for f in run_seq(ctx, case, extra=("replay",)):
       ctx.fail(f[0], f[1], case, f[2])
